@@ -91,6 +91,12 @@ type Define struct {
 	Body   *Expr
 }
 
+type Guard struct {
+	LockField string
+	Addr      bool   // the lock is the embedded mutex field itself (else: the field holds a *sync.Mutex)
+	Prop      string
+}
+
 type Binds struct {
 	Impl string
 	Spec string
@@ -111,6 +117,7 @@ type SpecDB struct {
 	Binds      []Binds
 	Files      []string
 	Immutable  map[string]bool // "pkg.T.f" fields assumed never written after construction
+	Guards     map[string]Guard // "pkg.T.f" -> lock that must be held when the field is read or written
 }
 
 func NewSpecDB() *SpecDB {
@@ -121,6 +128,7 @@ func NewSpecDB() *SpecDB {
 		Funcs:      map[string]*FuncDecl{},
 		Defines:    map[string]*Define{},
 		Immutable:  map[string]bool{},
+		Guards:     map[string]Guard{},
 	}
 }
 
@@ -326,6 +334,17 @@ func (db *SpecDB) LoadFile(file string, pkgPath string) error {
 				return fmt.Errorf("%s:%d: field X is Spec", file, ln)
 			}
 			db.FieldSpecs[fields[1]] = fields[3]
+			cur = nil
+		case "guarded":
+			// guarded pkg.T.f by lockField [addr]
+			if len(fields) < 4 || fields[2] != "by" {
+				return fmt.Errorf("%s:%d: guarded T.f by lockField [addr]", file, ln)
+			}
+			g := Guard{LockField: fields[3], Prop: strings.Fields(prop + " x")[0]}
+			if len(fields) >= 5 && fields[4] == "addr" {
+				g.Addr = true
+			}
+			db.Guards[fields[1]] = g
 			cur = nil
 		case "immutable":
 			for _, n := range fields[1:] {
